@@ -126,6 +126,11 @@ def build_instrument(spec):
     from mingus.containers.instrument import Instrument, MidiInstrument
     if spec is None:
         return None
+    if spec["kind"] == "midi" and spec.get("duck"):
+        i = Instrument()
+        i.instrument_nr = spec["nr"]
+        i.name = spec["name"]
+        return i
     if spec["kind"] == "midi":
         i = user_midi_instrument_class()() if spec.get("sub") else MidiInstrument()
         i.instrument_nr = spec["nr"]
